@@ -1,7 +1,7 @@
 #!/bin/bash
 # usage: confirm_mutation.sh <ID> <module-subdir>   (worktree /tmp/mut-<ID>, deliverables in MUTATION/)
 # Confirms: builds+vets, existing tests pass with the change, demo fails with / passes without the change.
-ID=$1; MOD=$2; WT=/tmp/mut-$ID
+ID=$1; MOD=$2; WT=${WTROOT:-/tmp/mut}-$ID
 export GOFLAGS=-mod=mod GOPROXY=off GOSUMDB=off GOTOOLCHAIN=local
 cd $WT || exit 2
 DEMO=$(git status --short | grep 'zz_mutation_demo_test.go' | awk '{print $2}' | head -1)
